@@ -22,6 +22,11 @@ inductive Situation where
   | inverted (numInverted : Nat) (first : Nat)
   deriving Repr, DecidableEq, Inhabited
 
+/-- `num_inverted`, or 0 in the normal situation -/
+def Situation.held : Situation → Nat
+  | .normal => 0
+  | .inverted n _ => n
+
 /-- `RangeEncoder { bulk, state: RangeCoderState { lower, range }, situation }` -/
 structure Encoder where
   bulk : List Nat
@@ -143,17 +148,19 @@ def sealPoint (c : Cfg) (e : Encoder) : M Nat :=
     | .error f => .error f
     | .ok d => .ok (wadd c.S e.lower d)
 
+/-- the held-back words as `seal` flushes them -/
+def sealHeldM (c : Cfg) (e : Encoder) (point : Nat) : M (List Nat) :=
+  match e.situation with
+  | .normal => .ok []
+  | .inverted n first => heldWords c n first (decide (point < e.lower))
+
 /-- the words `seal` appends to the backend -/
 def sealWords (c : Cfg) (e : Encoder) : M (List Nat) :=
   if e.range = maxState c then .ok [] else
   match sealPoint c e with
   | .error f => .error f
   | .ok point =>
-    let held : M (List Nat) :=
-      match e.situation with
-      | .normal => .ok []
-      | .inverted n first => heldWords c n first (decide (point < e.lower))
-    match held with
+    match sealHeldM c e point with
     | .error f => .error f
     | .ok hw =>
       match shr "range.seal.point>>" c.S point (c.S - c.W) with
@@ -193,9 +200,7 @@ def numSealWords (c : Cfg) (e : Encoder) : M Nat :=
       | .ok ut =>
         let upperWord := narrow c.W ut
         let count := if upperWord = pointWord then 2 else 1
-        match e.situation with
-        | .inverted n _ => .ok (count + n)
-        | .normal => .ok count
+        .ok (count + e.situation.held)
 
 /-- `num_words` for a `Vec` backend -/
 def numWords (c : Cfg) (e : Encoder) : M Nat :=
@@ -240,10 +245,7 @@ def clear (c : Cfg) (e : Encoder) : Encoder :=
 
 /-- `Pos::pos` for a `Vec` backend: `(bulk.len() + num_inverted, (lower, range))` -/
 def Encoder.pos (e : Encoder) : Nat × Nat × Nat :=
-  let held := match e.situation with
-    | .inverted n _ => n
-    | .normal => 0
-  (e.bulk.length + held, e.lower, e.range)
+  (e.bulk.length + e.situation.held, e.lower, e.range)
 
 /-! ## Decoder -/
 
